@@ -21,6 +21,8 @@ type c19Pre struct {
 	recip    sdk.AccAddress
 	minMult  sdkmath.LegacyDec
 	baseFee  *big.Int
+	supply   *big.Int
+	affordable bool // balance >= value + gas limit x offered price (the admission rule for the balance)
 }
 
 type c19Monitor struct {
@@ -59,6 +61,13 @@ func (m *c19Monitor) BeforeTx(r *Run, ctx sdk.Context, tx *BuiltTx) {
 	p.dump = r.DumpStores(ctx, append([]string{"evm"}, RestakingStores...))
 	p.minMult = r.Node.App.FeeMarketKeeper.GetParams(ctx).MinGasMultiplier
 	p.baseFee = r.Node.App.FeeMarketKeeper.GetBaseFee(ctx)
+	p.supply = r.Node.App.BankKeeper.GetSupply(ctx, "hua").Amount.BigInt()
+	p.affordable = true
+	if tx.GasPrice != nil && tx.Value != nil {
+		cost := new(big.Int).Mul(tx.GasPrice, new(big.Int).SetUint64(tx.GasLimit))
+		cost.Add(cost, tx.Value)
+		p.affordable = p.balS.Cmp(cost) >= 0
+	}
 	m.pre = p
 	if m.Types == nil {
 		m.Types = map[int]int{}
@@ -77,6 +86,14 @@ func (m *c19Monitor) AfterTx(r *Run, ctx sdk.Context, tx *TxResult) {
 	dS := new(big.Int).Sub(balS, p.balS)
 	dFee := new(big.Int).Sub(balFee, p.balFee)
 	desc := fmt.Sprintf("%s (type %d nonce %d limit %d cap %v tip %v value %v)", tx.Op, tx.EthType, tx.EthNonce, tx.GasLimit, tx.GasPrice, tx.EthTip, tx.Value)
+	if !p.affordable && (nonce != p.nonce || dS.Sign() != 0 || dFee.Sign() != 0) {
+		// the sender's balance does not cover value + gas limit x price: the transaction fails the
+		// balance admission check, so it must not be included, and if a proposer includes it anyway
+		// it must cost nothing
+		if r.violateKeepGoing(m.Name(), "tx-failing-admission-costs-nothing", "balance-below-value-plus-max-fee", fmt.Sprintf("%s: sender balance %s is below value + gas limit x price, yet nonce %d->%d, sender balance delta %s, fee collector delta %s (code %d %s)", desc, p.balS, p.nonce, nonce, dS, dFee, tx.Resp.Code, firstN(tx.Resp.Log, 100))) {
+			return
+		}
+	}
 	if tx.EthResp == nil && nonce == p.nonce+1 && tx.Resp.Code != 0 {
 		// admitted (the ante handler charged the fee and bumped the nonce) but the message failed
 		// before the EVM ran (intrinsic gas above the limit, block gas exhausted): an included,
@@ -109,6 +126,10 @@ func (m *c19Monitor) AfterTx(r *Run, ctx sdk.Context, tx *TxResult) {
 				r.Violate(m.Name(), "fee-collector-receives-gas-used-times-price", "not-a-multiple", fmt.Sprintf("%s: fee collector delta %s is not gas used %d times a price", desc, dFee, used))
 				return
 			}
+		} else if dFee.Sign() != 0 {
+			// included, nonce consumed, a fee charged - but the transaction reports that it used no gas
+			r.violateKeepGoing(m.Name(), "fee-collector-receives-gas-used-times-price", "charged-with-zero-gas-used:"+errClass(tx), fmt.Sprintf("%s failed before execution (%s): reported gas used 0, yet the sender paid %s", desc, firstN(tx.Resp.Log, 160), dFee))
+			return
 		}
 		post := r.DumpStores(ctx, append([]string{"evm"}, RestakingStores...))
 		if diff := p.dump.Diff(post, nil); len(diff) > 0 {
@@ -200,6 +221,22 @@ func (m *c19Monitor) AfterTx(r *Run, ctx sdk.Context, tx *TxResult) {
 	if tx.Creates != nil {
 		m.Creates++
 	}
+	// an Ethereum transaction moves coins (value, fee, refund); it never creates or destroys any
+	if sup := r.Node.App.BankKeeper.GetSupply(ctx, "hua").Amount.BigInt(); sup.Cmp(p.supply) != 0 {
+		if r.violateKeepGoing(m.Name(), "no-coins-are-created-or-destroyed", "supply:"+tx.CallMode, fmt.Sprintf("%s (vm error %q): total supply %s -> %s (delta %s)", desc, tx.EthResp.VmError, p.supply, sup, new(big.Int).Sub(sup, p.supply))) {
+			return
+		}
+	}
+	if tx.CallMode == "nested-revert" {
+		// the transaction succeeded, but the inner frame that reached the precompile reverted:
+		// no restaking state may have been reached through it
+		m.Failed++
+		post := r.DumpStores(ctx, RestakingStores)
+		if diff := p.dump.Diff(post, func(store string, key []byte) bool { return store == "evm" }); len(diff) > 0 {
+			r.violateKeepGoing(m.Name(), "a-reverted-inner-frame-changes-no-restaking-state", "stores", fmt.Sprintf("%s: the inner frame reverted after the precompile returned, the outer frame returned normally; restaking state changed:\n%s", desc, fmtDiff(diff, 6)))
+		}
+		return
+	}
 	if failed {
 		m.Failed++
 		r.State("vmerror:" + normDigits(firstN(tx.EthResp.VmError, 30)))
@@ -230,7 +267,7 @@ func c19Plan(p *PRNG, cfg Config, tier string) Plan {
 			case 1:
 				op.D = -1
 			}
-			op.E = []int{0, 0, 0, 1, 2, 3, 4, 5, 5, 6, 7}[p.Intn(11)]
+			op.E = []int{0, 0, 0, 1, 2, 3, 4, 5, 5, 6, 7, 8, 8, 9}[p.Intn(14)]
 			op.B = p.Intn(4)
 			if op.E >= 1 && op.E <= 4 && op.N < 100000 && p.Chance(2, 3) {
 				op.N = 300000
@@ -252,11 +289,13 @@ func c19Plan(p *PRNG, cfg Config, tier string) Plan {
 				case "dep", "wd", "del", "und", "assoc", "dissoc":
 					if o.M == 0 && p.Chance(1, 4) {
 						o.M = 2
+					} else if o.M == 0 && p.Chance(1, 8) {
+						o.M = 3 + p.Intn(3) // STATICCALL / DELEGATECALL frame / nested reverting frame
 					}
 				}
 			}
 		}
-		plan.Blocks[0].Ops = append([]Op{{K: "etx", A: 2, E: 4, N: 400000}}, plan.Blocks[0].Ops...)
+		plan.Blocks[0].Ops = append([]Op{{K: "etx", A: 2, E: 4, N: 400000}, {K: "etx", A: 1, E: 4, N: 400000}}, plan.Blocks[0].Ops...)
 	}
 	return plan
 }
